@@ -690,6 +690,14 @@ pub fn build_raw(lang: &Lang, events: &[Ev], crlf: bool) -> Built {
                         }
                     }
                 }
+                if close == "-->" {
+                    // glued noise texts (`<-` + `-> arrow`) can form `--`, which would end an XML/HTML comment
+                    // early: defuse it in place (tags and values never hold `--`, so only noise text changes)
+                    let body_from = cstart + open.len();
+                    while let Some(p) = out[body_from..].find("--").map(|i| i + body_from) {
+                        out.replace_range(p + 1..p + 2, "~");
+                    }
+                }
                 if !close.is_empty() {
                     if own_lines {
                         out.push_str(nl);
